@@ -45,6 +45,18 @@ type CAOpts struct {
 	// GrindPub (default off): step the static key(s) until the public point has a coordinate
 	// with a leading zero octet: 1 = X, 2 = Y
 	GrindPub int
+	// MoreInfos (default none): further ChipAuthenticationInfos announced in DG14 for the
+	// same key, next to the one Suite/Arrange describe (DG14 is a DER-sorted SET: an info
+	// without key identifier is shorter and stands before one with it). Not with Arrange 2
+	// unless WithID is set (several keys need the identifier).
+	MoreInfos []CAMoreInfo
+}
+
+// CAMoreInfo is one further ChipAuthenticationInfo: its suite, and whether it repeats the
+// key identifier the main info carries (Arrange 1, 2).
+type CAMoreInfo struct {
+	Suite  symref.Suite
+	WithID bool
 }
 
 type Opts struct {
@@ -359,6 +371,13 @@ func Build(r *mrand.Rand, o Opts) *Perso {
 		}
 		if o.CA.Arrange != 3 {
 			dg14Infos = append(dg14Infos, issuer.ChipAuthInfo(int(o.CA.Suite), infoID))
+		}
+		for _, mi := range o.CA.MoreInfos {
+			id := -1
+			if mi.WithID {
+				id = infoID
+			}
+			dg14Infos = append(dg14Infos, issuer.ChipAuthInfo(int(mi.Suite), id))
 		}
 	}
 	if has[14] {
